@@ -198,6 +198,11 @@ func (self *Interpreter) forStatement(node ast.AnalyzedForStatement) *value.Inte
 
 loop:
 	for {
+		// an empty body evaluates nothing that would notice a cancelation
+		if i := self.checkCancelation(node.Span()); i != nil {
+			return i
+		}
+
 		// loop control
 		currIterVar, shouldContinue := iterator()
 		if !shouldContinue {
